@@ -85,3 +85,22 @@ package b6
 //@ func FeaturesByID.HasFeatureWithID
 //@   trusted
 //@   function
+
+// ---- C37: geometry accessors as seen by the validators ---------------------------------
+// Assumed: the length of a feature's geometry and its points are functions of the
+// feature while it is being validated.
+//@ func Geometry.GeometryLen
+//@   trusted
+//@   function
+//@   ensures result >= 0 && result < 1<<40
+//@ func Geometry.PointAt
+//@   trusted
+//@   function
+// Whether a tag list marks a closed path: its value is not used by the C37 contracts.
+//@ func Tags.ClosedPath
+//@   trusted
+//@   pure
+// A feature's i-th reference is a reference value (possibly to the invalid ID), never nil.
+//@ func Feature.Reference
+//@   trusted
+//@   ensures result != nil
